@@ -190,6 +190,13 @@ var restoreCmd = &cobra.Command{
 			for _, arg := range args {
 				// a directory is restored path by path, taking the paths from the index and HEAD (not from the working tree)
 				if dirPaths := getPathsByDirectory(strings.ReplaceAll(filepath.Clean(arg), `\`, "/"), client.Idx, tree); len(dirPaths) > 0 {
+					// the name of a directory of HEAD may be staged as a file (the directory was replaced by a file)
+					dirArg := strings.ReplaceAll(filepath.Clean(arg), `\`, "/")
+					if _, _, isRegisteredAsFile := client.Idx.GetEntry([]byte(dirArg)); isRegisteredAsFile {
+						if err := restoreIndex(client.RootGoitPath, dirArg, client.Idx, tree); err != nil {
+							return err
+						}
+					}
 					for _, dirPath := range dirPaths {
 						if err := restoreIndex(client.RootGoitPath, dirPath, client.Idx, tree); err != nil {
 							return err
